@@ -1,7 +1,216 @@
 package selftest
 
-import "mtverif/internal/core"
+import (
+	"fmt"
+	"io/fs"
+	"os"
+	"path/filepath"
+	"sort"
+	"strings"
+	"time"
+
+	"mtverif/internal/core"
+)
+
+// Edit is one textual replacement (first occurrence) in a repository file.
+type Edit struct{ File, Old, New string }
+
+// Mutant is a single-instance break of a rule's clause that still compiles.
+type Mutant struct {
+	ID    string
+	Rules []string // rules that must report it
+	Edits []Edit
+	Note  string
+}
+
+var catalogue = []Mutant{
+	{ID: "dcm-guard", Rules: []string{"R01.1"}, Note: "Dcm: len(raw) > 131 -> > 130", Edits: []Edit{{"internal/magic/binary.go", "return len(raw) > 131 &&", "return len(raw) > 130 &&"}}},
+	{ID: "advance-neg", Rules: []string{"R01.1"}, Note: "readBuf.advance: drop n < 0", Edits: []Edit{{"internal/magic/magic.go", "if n < 0 || len(*b) < n {", "if len(*b) < n {"}}},
+	{ID: "partial-rune-lower", Rules: []string{"R01.1"}, Note: "FromPlain: drop i >= 0", Edits: []Edit{{"internal/charset/charset.go", "for i := len(content) - 1; i >= 0 && i > len(content)-4; i-- {", "for i := len(content) - 1; i > len(content)-4; i-- {"}}},
+	{ID: "ole-offset", Rules: []string{"R01.1"}, Note: "OLE: weaker CLSID guard", Edits: []Edit{{"internal/magic/ms_office.go", "if len(in) <= clsidOffset+16 {", "if len(in) < clsidOffset-1 {"}}},
+	{ID: "zip-size-short", Rules: []string{"R01.1"}, Note: "zip walker: length guard below the size field", Edits: []Edit{{"internal/magic/zip.go", "if len(b) < 0x1E {\n\t\treturn false\n\t}\n\n\tif !b.advance(0x1E) {\n\t\treturn false\n\t}", "if len(b) < 0x10 {\n\t\treturn false\n\t}\n\tb = b[0x10:]"}}},
+	{ID: "firstline-step", Rules: []string{"R01.4"}, Note: "firstLine: step removed", Edits: []Edit{{"internal/magic/magic.go", "for ; lineEnd < len(in) && in[lineEnd] != '\\n'; lineEnd++ {", "for ; lineEnd < len(in) && in[lineEnd] != '\\n'; lineEnd += 0 {"}}},
+	{ID: "pool-type", Rules: []string{"R04.3"}, Note: "reader pool New returns another type", Edits: []Edit{{"internal/magic/text_csv.go", "return bufio.NewReader(nil)", "return bufio.NewWriter(nil)"}}},
+	{ID: "sniffer-nil", Rules: []string{"R01.3", "R02.2"}, Note: "sniffer called without the ok test", Edits: []Edit{{"mime.go", "if f, ok := needsCharset[m.mime]; ok {", "if f, ok := needsCharset[m.mime]; ok || len(in) > 0 {"}}},
+	{ID: "bad-name", Rules: []string{"R02.1"}, Note: "registered type with a space", Edits: []Edit{{"tree.go", "\"application/x-xz\"", "\"application/x xz\""}}},
+	{ID: "fourth-sniffer", Rules: []string{"R12.1"}, Note: "charset on a fourth type", Edits: []Edit{{"mime.go", "\"text/xml\":   charset.FromXML,", "\"text/xml\":   charset.FromXML,\n\t\t\"text/csv\":   charset.FromPlain,"}}},
+	{ID: "ancestor-params", Rules: []string{"R03.3"}, Note: "ancestors cloned with the parameter map", Edits: []Edit{{"mime.go", "pClone := p.clone(nil)", "pClone := p.clone(ps)"}}},
+	{ID: "concat-charset", Rules: []string{"R02.2"}, Note: "charset concatenated instead of FormatMediaType", Edits: []Edit{{"mime.go", "clonedMIME = mime.FormatMediaType(m.mime, ps)", "clonedMIME = m.mime + \"; charset=\" + ps[\"charset\"]"}}},
+	{ID: "err-root", Rules: []string{"R02.5"}, Note: "error return carries the shared root", Edits: []Edit{{"mimetype.go", "f, err := os.Open(path)\n\tif err != nil {\n\t\treturn errMIME, err", "f, err := os.Open(path)\n\tif err != nil {\n\t\treturn root, err"}}},
+	{ID: "third-sentinel", Rules: []string{"R02.5"}, Note: "a third error sentinel is excused", Edits: []Edit{{"mimetype.go", "err != io.ErrUnexpectedEOF {", "err != io.ErrUnexpectedEOF && err != io.ErrClosedPipe {"}}},
+	{ID: "child-half", Rules: []string{"R03.2"}, Note: "children judge half the header", Edits: []Edit{{"mime.go", "return c.match(in, readLimit)", "return c.match(in[:len(in)/2], readLimit)"}}},
+	{ID: "double-parent", Rules: []string{"R03.1"}, Note: "a node listed under two parents", Edits: []Edit{{"tree.go", "magic.Ogg, oggAudio, oggVideo)", "magic.Ogg, oggAudio, oggVideo, png)"}}},
+	{ID: "slice-off-by-one", Rules: []string{"R04.1"}, Note: "Detect cuts one byte late", Edits: []Edit{{"mimetype.go", "if l > 0 && len(in) > int(l) {", "if l > 0 && len(in) > int(l)+1 {"}}},
+	{ID: "detector-writes", Rules: []string{"R04.2"}, Note: "a detector writes its input", Edits: []Edit{{"internal/magic/text.go", "func Svg(raw []byte, limit uint32) bool {\n", "func Svg(raw []byte, limit uint32) bool {\n\tcopy(raw, raw[:0])\n"}}},
+	{ID: "no-reset", Rules: []string{"R04.3"}, Note: "pooled scanner not reset", Edits: []Edit{{"internal/json/parser.go", "\tp.reset()\n", "\t_ = p\n"}}},
+	{ID: "reset-misses-field", Rules: []string{"R04.3"}, Note: "reset forgets a field", Edits: []Edit{{"internal/json/parser.go", "\tp.querySatisfied = false\n\tp.failed = false", "\tp.failed = false"}}},
+	{ID: "buf-plus-one", Rules: []string{"R05.2"}, Note: "ReadFull buffer one byte larger", Edits: []Edit{{"mimetype.go", "in = make([]byte, l)", "in = make([]byte, l+1)"}}},
+	{ID: "no-cut", Rules: []string{"R05.2"}, Note: "buffer not cut to bytes read", Edits: []Edit{{"mimetype.go", "\t\tin = in[:n]\n", "\t\t_ = n\n"}}},
+	{ID: "plain-limit", Rules: []string{"R06.1"}, Note: "plain read of the limit", Edits: []Edit{{"mimetype.go", "func Detect(in []byte) *MIME {\n\t// Using atomic because readLimit can be written at the same time in other goroutine.\n\tl := atomic.LoadUint32(&readLimit)", "func Detect(in []byte) *MIME {\n\tl := readLimit"}}},
+	{ID: "lookup-unlocked", Rules: []string{"R06.2"}, Note: "Lookup without the lock", Edits: []Edit{{"mimetype.go", "\tmu.RLock()\n\tdefer mu.RUnlock()\n\treturn root.lookup(mime)", "\treturn root.lookup(mime)"}}},
+	{ID: "extend-rlock", Rules: []string{"R06.2", "R14.1"}, Note: "Extend publishes under the read lock", Edits: []Edit{{"mime.go", "\tmu.Lock()\n\tm.children = append([]*MIME{c}, m.children...)\n\tmu.Unlock()", "\tmu.RLock()\n\tm.children = append([]*MIME{c}, m.children...)\n\tmu.RUnlock()"}}},
+	{ID: "store-after-publication", Rules: []string{"R06.3"}, Note: "accessor writes a node field", Edits: []Edit{{"mime.go", "func (m *MIME) Extension() string {\n\treturn m.extension", "func (m *MIME) Extension() string {\n\tm.extension = m.extension + \"\"\n\treturn m.extension"}}},
+	{ID: "shared-append", Rules: []string{"R06.4"}, Note: "lookup appends to the alias slice again", Edits: []Edit{{"mime.go", "for _, n := range m.aliases {\n\t\tif n == mime {", "for _, n := range append(m.aliases, m.mime) {\n\t\tif n == mime {"}}},
+	{ID: "package-cache", Rules: []string{"R06.5"}, Note: "result memoised in a package variable", Edits: []Edit{{"mime.go", "\treturn m.cloneHierarchy(ps)\n}", "\tlastResult = m.cloneHierarchy(ps)\n\treturn lastResult\n}\n\nvar lastResult *MIME"}}},
+	{ID: "second-load", Rules: []string{"R06.6"}, Note: "limit loaded again for the walk", Edits: []Edit{{"mimetype.go", "\tdefer mu.RUnlock()\n\treturn root.match(in, l)\n}", "\tdefer mu.RUnlock()\n\treturn root.match(in, atomic.LoadUint32(&readLimit))\n}"}}},
+	{ID: "shared-result", Rules: []string{"R06.7"}, Note: "walk returns the shared node when there is no charset", Edits: []Edit{{"mime.go", "\treturn m.cloneHierarchy(ps)\n}", "\tif len(ps) > 0 {\n\t\treturn m.cloneHierarchy(ps)\n\t}\n\treturn m\n}"}}},
+	{ID: "text-1b", Rules: []string{"R07.1"}, Note: "ESC counted as binary", Edits: []Edit{{"internal/magic/text.go", "0x0E <= b && b <= 0x1A ||", "0x0E <= b && b <= 0x1B ||"}}},
+	{ID: "text-512", Rules: []string{"R07.2"}, Note: "text scan limited to 512 bytes", Edits: []Edit{{"internal/magic/text.go", "\tfor _, b := range raw {\n\t\tif b <= 0x08 ||", "\tfor _, b := range raw[:min(len(raw), 512)] {\n\t\tif b <= 0x08 ||"}}},
+	{ID: "bom-order", Rules: []string{"R07.3"}, Note: "utf-16le before utf-32le", Edits: []Edit{{"internal/charset/charset.go", "\t\t{[]byte{0xFF, 0xFE, 0x00, 0x00}, \"utf-32le\"},\n\t\t{[]byte{0xFE, 0xFF}, \"utf-16be\"},\n\t\t{[]byte{0xFF, 0xFE}, \"utf-16le\"},", "\t\t{[]byte{0xFF, 0xFE}, \"utf-16le\"},\n\t\t{[]byte{0xFF, 0xFE, 0x00, 0x00}, \"utf-32le\"},\n\t\t{[]byte{0xFE, 0xFF}, \"utf-16be\"},"}}},
+	{ID: "text-not-last", Rules: []string{"R07.4"}, Note: "text before parquet", Edits: []Edit{{"tree.go", "cabIS, jxr, parquet,\n\t// Keep text last because it is the slowest check.\n\ttext,\n)", "cabIS, jxr,\n\t// Keep text last because it is the slowest check.\n\ttext, parquet,\n)"}}},
+	{ID: "json-trunc-le", Rules: []string{"R08.1"}, Note: "len == limit treated as whole", Edits: []Edit{{"internal/magic/text.go", "if limit == 0 || lraw < int(limit) {", "if limit == 0 || lraw <= int(limit) {"}}},
+	{ID: "nested-failure-swallowed", Rules: []string{"R08.2"}, Note: "nested failure returns n again", Edits: []Edit{{"internal/json/parser.go", "\t\tif lvl > 0 {\n\t\t\treturn 0\n\t\t}\n\t\treturn n", "\t\treturn n"}}},
+	{ID: "inspected-is-len", Rules: []string{"R08.3"}, Note: "entry reports len(raw) as inspected", Edits: []Edit{{"internal/json/parser.go", "return got, p.ib, p.firstToken, p.querySatisfied", "return got, len(raw), p.firstToken, p.querySatisfied"}}},
+	{ID: "object-closed-by-bracket", Rules: []string{"R09.3"}, Note: "']' also closes an object", Edits: []Edit{{"internal/json/parser.go", "\t\tcase '}':\n\t\t\tp.currPath = p.currPath[:len(p.currPath)-1]", "\t\tcase '}', ']':\n\t\t\tp.currPath = p.currPath[:len(p.currPath)-1]"}}},
+	{ID: "geo-accepts-array", Rules: []string{"R09.4"}, Note: "GeoJSON mask admits arrays", Edits: []Edit{{"internal/magic/text.go", "json.QueryGeo, json.TokObject)", "json.QueryGeo, json.TokObject|json.TokArray)"}}},
+	{ID: "array-pop-missing", Rules: []string{"R10.1"}, Note: "pop after a non-empty array removed", Edits: []Edit{{"internal/json/parser.go", "\t\tcase ']':\n\t\t\tp.ib++\n\t\t\tp.currPath = p.currPath[:len(p.currPath)-1]\n\t\t\treturn n + 1\n\t\tdefault:", "\t\tcase ']':\n\t\t\tp.ib++\n\t\t\treturn n + 1\n\t\tdefault:"}}},
+	{ID: "geo-table", Rules: []string{"R10.2"}, Note: "RFC 7946 name misspelt", Edits: []Edit{{"internal/json/parser.go", "[]byte(`\"MultiPolygon\"`),", "[]byte(`\"MultiPolygons\"`),"}}},
+	{ID: "har-after-gltf", Rules: []string{"R10.3"}, Note: "gltf before har", Edits: []Edit{{"tree.go", "magic.JSON, geoJSON, har, gltf)", "magic.JSON, geoJSON, gltf, har)"}}},
+	{ID: "match-only-shallow", Rules: []string{"R10.4"}, Note: "keys matched only at shallow depth", Edits: []Edit{{"internal/json/parser.go", "if !p.querySatisfied {\n\t\t\t\tqueryMatched = queryPathMatch(qs, p.currPath)", "if !p.querySatisfied && lvl < 3 {\n\t\t\t\tqueryMatched = queryPathMatch(qs, p.currPath)"}}},
+	{ID: "utf8-unvalidated", Rules: []string{"R11.3"}, Note: "utf-8 without validation", Edits: []Edit{{"internal/charset/charset.go", "if hasHighBit && utf8.Valid(content) {", "if hasHighBit && len(content) > 0 {"}}},
+	{ID: "ascii-nel", Rules: []string{"R11.4"}, Note: "ASCII shortcut accepts NEL again", Edits: []Edit{{"internal/charset/charset.go", "if b >= 0x80 || textChars[b] != T {", "if textChars[b] != T {"}}},
+	{ID: "trim-unconditional", Rules: []string{"R11.5"}, Note: "last rune trimmed unconditionally", Edits: []Edit{{"internal/charset/charset.go", "\t\t\tif !utf8.FullRune(content[i:]) {\n\t\t\t\tcontent = content[:i]\n\t\t\t}", "\t\t\tcontent = content[:i]"}}},
+	{ID: "c1-range", Rules: []string{"R11.6"}, Note: "C1 range starts too late (NEL 0x85 not flagged)", Edits: []Edit{{"internal/charset/charset.go", "if b >= 0x80 && b <= 0x9F {", "if b >= 0x86 && b <= 0x9F {"}}},
+	{ID: "html-plain-sniffer", Rules: []string{"R12.1"}, Note: "text/html mapped to the plain sniffer", Edits: []Edit{{"mime.go", "\"text/html\":  charset.FromHTML,", "\"text/html\":  charset.FromPlain,"}}},
+	{ID: "no-charset-reader", Rules: []string{"R12.2"}, Note: "decoder without CharsetReader", Edits: []Edit{{"internal/charset/charset.go", "\tdec.CharsetReader = func(_ string, input io.Reader) (io.Reader, error) {\n\t\treturn input, nil\n\t}", "\t_ = io.EOF"}}},
+	{ID: "xml-label-case", Rules: []string{"R12.3"}, Note: "XML label not lower-cased", Edits: []Edit{{"internal/charset/charset.go", "return strings.ToLower(xmlEncoding(string(t.Inst)))", "return xmlEncoding(string(t.Inst))"}}},
+	{ID: "html-lowercase-range", Rules: []string{"R12.3"}, Note: "lower-casing misses Z", Edits: []Edit{{"internal/charset/charset.go", "if 'A' <= c && c <= 'Z' {\n\t\t\t\t\t\tval[i] = c + 0x20", "if 'A' <= c && c < 'Z' {\n\t\t\t\t\t\tval[i] = c + 0x20"}}},
+	{ID: "pragma-any", Rules: []string{"R12.4"}, Note: "content attribute accepted without http-equiv", Edits: []Edit{{"internal/charset/charset.go", "if needPragma == dontKnow || needPragma == doNeedPragma && !gotPragma {", "if needPragma == dontKnow || needPragma == doNeedPragma && gotPragma {"}}},
+	{ID: "droplast-le", Rules: []string{"R13.1"}, Note: "len == limit not cut", Edits: []Edit{{"internal/magic/text_csv.go", "if readLimit == 0 || uint32(len(b)) < readLimit {", "if readLimit == 0 || uint32(len(b)) <= readLimit {"}}},
+	{ID: "ndjson-inspected", Rules: []string{"R13.2"}, Note: "NDJSON judged by inspected bytes again", Edits: []Edit{{"internal/magic/text.go", "parsed, _, firstToken, _ := json.Parse(json.QueryNone, l)\n\t\tif len(l) != parsed {", "_, inspected, firstToken, _ := json.Parse(json.QueryNone, l)\n\t\tif len(l) != inspected {"}}},
+	{ID: "ndjson-one-line", Rules: []string{"R13.3"}, Note: "one line suffices", Edits: []Edit{{"internal/magic/text.go", "return lCount > 1 && objOrArr > 0", "return lCount > 0 && objOrArr > 0"}}},
+	{ID: "csv-one-record", Rules: []string{"R13.3"}, Note: "one record suffices", Edits: []Edit{{"internal/magic/text_csv.go", "return r.FieldsPerRecord > 1 && lines > 1", "return r.FieldsPerRecord > 1 && lines > 0"}}},
+	{ID: "csv-ragged", Rules: []string{"R13.3"}, Note: "ragged tables allowed", Edits: []Edit{{"internal/magic/text_csv.go", "\tr.Comment = '#'\n", "\tr.Comment = '#'\n\tr.FieldsPerRecord = -1\n"}}},
+	{ID: "extend-append", Rules: []string{"R14.1"}, Note: "extension appended instead of prepended", Edits: []Edit{{"mime.go", "m.children = append([]*MIME{c}, m.children...)", "m.children = append(m.children, c)"}}},
+	{ID: "lookup-no-type", Rules: []string{"R14.4"}, Note: "lookup ignores the main type", Edits: []Edit{{"mime.go", "\tif m.mime == mime {\n\t\treturn m\n\t}\n\tfor _, n := range m.aliases {", "\tfor _, n := range m.aliases {"}}},
+	{ID: "is-unparsed", Rules: []string{"R15.1"}, Note: "Is compares the raw type string", Edits: []Edit{{"mime.go", "found, _, _ := mime.ParseMediaType(m.mime)", "found := m.mime"}}},
+	{ID: "alias-case", Rules: []string{"R15.2"}, Note: "alias with an upper-case letter", Edits: []Edit{{"tree.go", "alias(\"application/x-zip\",", "alias(\"application/X-zip\","}}},
+	{ID: "no-cap", Rules: []string{"R16.2"}, Note: "pool constructor without the cap", Edits: []Edit{{"internal/json/parser.go", "return &parserState{maxRecursion: maxRecursion}", "return &parserState{}"}}},
+	{ID: "depth-not-growing", Rules: []string{"R16.2"}, Note: "array depth not incremented", Edits: []Edit{{"internal/json/parser.go", "rv = p.consumeArray(b[n:], qs, lvl+1)", "rv = p.consumeArray(b[n:], qs, lvl)"}}},
+	{ID: "zip-upper-bound", Rules: []string{"R17.1"}, Note: "Zip bounded above", Edits: []Edit{{"internal/magic/zip.go", "return len(raw) > 3 &&\n\t\traw[0] == 0x50", "return len(raw) > 3 && len(raw) < 100000 &&\n\t\traw[0] == 0x50"}}},
+	{ID: "handover-target-gone", Rules: []string{"R17.1"}, Note: "accdb no longer root-level", Edits: []Edit{{"tree.go", "hdr, mrc, mdb, accdb, zstd,", "hdr, mrc, mdb, zstd,"}}},
+	{ID: "tar-window", Rules: []string{"R18.1"}, Note: "blanked window one byte longer", Edits: []Edit{{"internal/magic/archive.go", "if 148 <= i && i < 156 {", "if 148 <= i && i <= 156 {"}}},
+	{ID: "tar-parse-window", Rules: []string{"R18.1"}, Note: "parsed window shifted", Edits: []Edit{{"internal/magic/archive.go", "tarParseOctal(raw[148:156])", "tarParseOctal(raw[147:155])"}}},
+	{ID: "xlsx-no-mso", Rules: []string{"R19.1"}, Note: "xlsx without the first-entry list", Edits: []Edit{{"internal/magic/ms_office.go", "[]byte(\"xl/\"), true)", "[]byte(\"xl/\"), false)"}}},
+	{ID: "odc-signature", Rules: []string{"R19.2"}, Note: "ODF chart signature misspelt", Edits: []Edit{{"internal/magic/zip.go", "opendocument.chart\"), 30)", "opendocument.charts\"), 30)"}}},
+	{ID: "zip-loop-3", Rules: []string{"R19.5"}, Note: "one entry fewer", Edits: []Edit{{"internal/magic/zip.go", "for i := 0; i < 4; i++ {", "for i := 0; i < 3; i++ {"}}},
+	{ID: "recursive-helper", Rules: []string{"R16.1"}, Note: "a new input-driven recursion", Edits: []Edit{{"internal/magic/magic.go", "func isWS(b byte) bool {", "func skipWSRec(in []byte) []byte {\n\tif len(in) > 0 && isWS(in[0]) {\n\t\treturn skipWSRec(in[1:])\n\t}\n\treturn in\n}\n\nvar _ = skipWSRec\n\nfunc isWS(b byte) bool {"}}},
+}
+
+func copyTree(src, dst string) error {
+	return filepath.WalkDir(src, func(p string, d fs.DirEntry, err error) error {
+		if err != nil {
+			return err
+		}
+		rel, _ := filepath.Rel(src, p)
+		if d.IsDir() {
+			if d.Name() == ".git" || d.Name() == "testdata" {
+				return filepath.SkipDir
+			}
+			return os.MkdirAll(filepath.Join(dst, rel), 0o755)
+		}
+		if strings.HasSuffix(p, "_test.go") {
+			return nil
+		}
+		if !(strings.HasSuffix(p, ".go") || d.Name() == "go.mod" || d.Name() == "go.sum") {
+			return nil
+		}
+		b, err := os.ReadFile(p)
+		if err != nil {
+			return err
+		}
+		return os.WriteFile(filepath.Join(dst, rel), b, 0o644)
+	})
+}
 
 func run(c *core.Ctx, p *core.Property, repo string) Outcome {
-	return Outcome{Summary: map[string]interface{}{"mutants": 0}}
+	out := Outcome{Summary: map[string]interface{}{}}
+	ruleOf := map[string]*core.Rule{}
+	for _, r := range p.Rules {
+		ruleOf[r.ID] = r
+	}
+	type res struct {
+		ID, Note, Status, Detail string
+		Rules                    []string
+	}
+	var results []res
+	t0 := time.Now()
+	for _, m := range catalogue {
+		var rs []*core.Rule
+		for _, id := range m.Rules {
+			if r := ruleOf[id]; r != nil {
+				rs = append(rs, r)
+			}
+		}
+		if len(rs) == 0 {
+			continue
+		}
+		r := res{ID: m.ID, Note: m.Note, Rules: m.Rules}
+		dir, err := os.MkdirTemp("", "mtverif-selftest-")
+		if err != nil {
+			r.Status, r.Detail = "error", err.Error()
+			results = append(results, r)
+			continue
+		}
+		func() {
+			defer os.RemoveAll(dir)
+			if err := copyTree(repo, dir); err != nil {
+				r.Status, r.Detail = "error", err.Error()
+				return
+			}
+			for _, e := range m.Edits {
+				fp := filepath.Join(dir, e.File)
+				b, err := os.ReadFile(fp)
+				if err != nil || !strings.Contains(string(b), e.Old) {
+					r.Status, r.Detail = "stale", "pattern not found in "+e.File+" (the source changed; mutant skipped)"
+					return
+				}
+				os.WriteFile(fp, []byte(strings.Replace(string(b), e.Old, e.New, 1)), 0o644)
+			}
+			mc, err := core.Load(dir)
+			if err != nil {
+				r.Status, r.Detail = "does-not-compile", err.Error()
+				return
+			}
+			viol := 0
+			var first string
+			for _, rule := range rs {
+				for _, o := range core.RunRule(mc, rule) {
+					if o.Status == core.Violated {
+						viol++
+						if first == "" {
+							first = o.Rule + " " + o.Key + " @" + o.Pos
+						}
+					}
+				}
+			}
+			if viol > 0 {
+				r.Status, r.Detail = "killed", first
+			} else {
+				r.Status, r.Detail = "survived", "no rule of this property reported the mutant"
+			}
+		}()
+		results = append(results, r)
+	}
+	sort.Slice(results, func(i, j int) bool { return results[i].ID < results[j].ID })
+	killed, stale := 0, 0
+	for _, r := range results {
+		key := "self-test mutant " + r.ID
+		switch r.Status {
+		case "killed":
+			killed++
+			out.Obs = append(out.Obs, core.Obligation{Rule: "selftest", Key: key, Pos: "-", Status: core.Discharged, St: "discharged", By: "reported: " + r.Detail, Detail: r.Note})
+		case "stale":
+			stale++
+		default:
+			// a mutant that is not reported (or cannot be built) means the checker is broken: undecided, never a VIOLATION
+			out.Obs = append(out.Obs, core.Obligation{Rule: "selftest", Key: key, Pos: "-", Status: core.UndecidedSt, St: "undecided", Detail: fmt.Sprintf("%s: %s (%s)", r.Status, r.Detail, r.Note)})
+		}
+	}
+	out.Summary["mutants"] = len(results)
+	out.Summary["killed"] = killed
+	out.Summary["stale"] = stale
+	out.Summary["wall_s"] = time.Since(t0).Seconds()
+	out.Summary["results"] = results
+	return out
 }
